@@ -693,6 +693,17 @@ def decodeFile (data : List UInt8) : Except Reject (List UInt8) :=
   | .error e => .error e
   | .ok acc => .ok acc.out.toList
 
+/-- `decodeFile` without the final conversion to a list (for large outputs). -/
+def decodeFileArr (data : List UInt8) : Except Reject (Array UInt8) :=
+  match walkFile false data with
+  | .error e => .error e
+  | .ok acc => .ok acc.out
+
+theorem decodeFile_eq (data : List UInt8) :
+    decodeFile data = (decodeFileArr data).map Array.toList := by
+  unfold decodeFile decodeFileArr
+  cases walkFile false data <;> rfl
+
 /-- THE strict inspector (C02): `decodeFile`'s rules plus — exactly one stream
     with nothing after it, no randomised block, every table (used or not)
     Kraft-complete, at most 18002 selectors per block — and a report of what
